@@ -1,6 +1,6 @@
 # executed by tools_manifest.py
 PENDING.update({k: 'check not built yet in this commit (claimed in DESIGN.md section 4; will move to checks when its machinery lands)'
-                for k in ['C10', 'C11', 'C12', 'C17']})
+                for k in ['C11', 'C12', 'C17']})
 
 check('C09', 'fault_enumeration',
       'For every sampled experiment configuration the complete single-crash space (after every mutating file-system effect x every '
@@ -68,3 +68,13 @@ check('C01', 'exploration',
       'Optimizer objects are trusted black boxes in the reference; float tolerances rtol 1e-4; (num_epochs=None, empty client) excluded.',
       'deterministic simulation of a federated deployment (seeded cohort/order/backend/dropout schedule) with step-by-step refinement against an executable reference model',
       'DESIGN.md 2.5, 4 (C01)')
+
+check('C10', 'exploration',
+      'Seeded history machine over a tree of states for every built-in algorithm and every compression aggregator: apply, retry of an '
+      'earlier call later in the history (at-least-once delivery), branch from an already used state, and restart (real save_state onto '
+      'the simulated file system, all algorithm/optimizer/aggregator objects rebuilt, load_state, history continued on both copies). '
+      'Oracles: bit-identical retry (state and diagnostics), deep value snapshot of the argument state before/after every call (dict keys, '
+      'list lengths, leaf bytes, readability), restored copy continued by fresh objects agrees with the original.',
+      'Sampling over algorithms, hyper-parameters, populations and histories; batch seed fixed (seed=None is documented as re-randomising).',
+      'deterministic simulation: seeded history machine with retry/branch/restart faults; purity and value-snapshot oracles',
+      'DESIGN.md 2.5, 4 (C10)')
